@@ -2,11 +2,12 @@
   C14 — ICMPv6 spoofing is confined to hunted hosts; routers are learned exactly.
   Property theorems over ALL traces of the hunt machine (Model/Icmp6Hunt.lean) and over all router
   advertisements (Model/Ndp.lean against Spec/NdpWire.lean).  Invariants and lemmas:
-  Lemmas/Icmp6Hunt.lean, Lemmas/NdpExact.lean.
+  Lemmas/Icmp6Hunt.lean, Lemmas/NdpExact.lean, Lemmas/NdpDnssl.lean.
 
   Wall-clock part: the 2–2.8 s cycle is the nondeterministic `wake` transition; the harness measures it.
 -/
 import PacketVerif.Lemmas.Icmp6Hunt
+import PacketVerif.Lemmas.NdpDnssl
 namespace PV.Props.C14
 open PV PV.Model.Ndp PV.Model.Icmp6Hunt PV.Spec.NdpWire PV.Lemmas.NdpExact PV.Lemmas.Icmp6Hunt
 
@@ -209,14 +210,17 @@ theorem finding_na_after_stop_window : ¬ no_na_after_stop_full := by
 
 /-! ### learning routers from advertisements -/
 
-/-- the DNSSL label walk agrees with the reference reading of the option whenever the names area is
-    cleanly padded (`padClean`: where a name would start, a zero byte is followed by zero bytes only)
-    and carries no Punycode marker `xn--` (those labels go through the third-party `puny.ToUnicode`).
-    NOT proved here – it is hypothesis `hD` of `ra_learned_exact`; the harness compares the code with
-    an independent decoder on generated and mutated DNSSL options. -/
-def dnssl_exact : Prop :=
+/-- **The DNSSL label walk agrees with the reference reading of the option** whenever the names area
+    is cleanly padded (`padClean`: where a name would start, a zero byte is followed by zero bytes
+    only) and carries no Punycode marker `xn--` (those labels go through the third-party
+    `puny.ToUnicode`): for every framed DNSSL option, `dnsslUnmarshal` returns exactly the lifetime
+    and the domain names the reference reads, or fails exactly when the reference ignores the option
+    (never a panic, never a hang).  Proof: Lemmas/NdpDnssl.lean (`dnssl_agree`), by induction on the
+    fuel of the walk, in lock step with the reference's name reader. -/
+theorem dnssl_exact :
   ∀ (o : Tlv), o.wf → o.type = 31 → hasPuny (o.body.drop 6) = false →
-    padClean ((o.body.drop 6).length + 1) (o.body.drop 6) = true → DnsslAgree o
+    padClean ((o.body.drop 6).length + 1) (o.body.drop 6) = true → DnsslAgree o :=
+  fun o hw ht hp hc => PV.Lemmas.NdpDnssl.dnssl_agree o hw ht hp hc
 
 /-- only every fourth advertisement (process-global counter) is looked at -/
 theorem ra_throttle (s : State) (r : RaIn) (h16 : 16 ≤ r.payload.length) (hrep : (s.rep + 1) % 4 ≠ 0) :
@@ -282,6 +286,38 @@ theorem ra_learned_exact (s : State) (r : RaIn) (h16 : 16 ≤ r.payload.length)
         simp [hk, raOptions_drop _ h16, hopt, hhdr]
       · exact learn_entry { s with rep := s.rep + 1 } r (ofFixed fx) (ofSummary sm)
 
+/-- **`ra_learned_exact` without the DNSSL hypothesis**: it is enough that every DNSSL option of the
+    message (as framed by the reference) has a cleanly padded names area without Punycode marker –
+    a condition on the bytes of the message alone; `dnssl_exact` supplies the agreement of the label
+    walk with the reference. -/
+theorem ra_learned_exact' (s : State) (r : RaIn) (h16 : 16 ≤ r.payload.length)
+    (hrep : (s.rep + 1) % 4 = 0) (hk : r.hostKnown = true) :
+    ∃ fx, decodeRaFixed r.payload = some (fx, r.payload.drop 16) ∧
+      (tlvs (r.payload.drop 16) = none →
+        processRA s r = .ok ({ s with rep := s.rep + 1 }, false)) ∧
+      (∀ l, tlvs (r.payload.drop 16) = some l →
+        (∀ o ∈ l, o.type = 31 → hasPuny (o.body.drop 6) = false ∧
+          padClean ((o.body.drop 6).length + 1) (o.body.drop 6) = true) →
+        match summarise {} l with
+        | none => processRA s r = .ok ({ s with rep := s.rep + 1 }, false)
+        | some sm =>
+          ∃ s', processRA s r = .ok (s', true) ∧
+            entry s' r.ipSrc = some
+              { mac := match entry s r.ipSrc with
+                       | some old => old.mac
+                       | none => raMac (ofSummary sm) r.etherSrc,
+                ip := match entry s r.ipSrc with
+                       | some old => old.ip
+                       | none => r.ipSrc,
+                hdr := ofFixed fx, options := ofSummary sm }) := by
+  obtain ⟨fx, hfx, hnone, hsome⟩ := ra_learned_exact s r h16 hrep hk
+  refine ⟨fx, hfx, hnone, ?_⟩
+  intro l hl hclean
+  apply hsome l hl
+  intro o ho ht
+  have hw := PV.Lemmas.NdpDnssl.tlvs_wf _ _ l (Nat.le_refl _) hl o ho
+  exact dnssl_exact o hw ht (hclean o ho ht).1 (hclean o ho ht).2 ht
+
 /-- the first router learned becomes the default router, which is what enables the attack loop -/
 theorem ra_sets_default (s : State) (r : RaIn) (hdr : RaHeader) (o : Options)
     (hnew : entry s r.ipSrc = none) : (learn s r hdr o).defaultRouter = some r.ipSrc := by
@@ -308,5 +344,22 @@ example : (run {} [.startHunt witnessMac .lla, .ra witnessRA, .stopHunt witnessM
 example : decodeOptions [5, 1, 0, 0, 0, 0, 5, 0xdc, 1, 1, 2, 3, 4, 5, 6, 7] =
     some { mtu := 1500, slla := some [2, 3, 4, 5, 6, 7] } := by
   simp [decodeOptions, tlvs, summarise, decodeOne, Summary.add, nat32]
+
+/-- a DNSSL option (two names, zero padding) satisfies the hypotheses of `dnssl_exact`, and the code
+    reads `a.bc` and `d` from it -/
+def witnessDnssl : Tlv := ⟨31, 3, [0, 0, 0, 0, 0, 60, 1, 97, 2, 98, 99, 0, 1, 100, 0, 0, 0, 0, 0, 0, 0, 0]⟩
+
+example : witnessDnssl.wf ∧ witnessDnssl.type = 31 ∧ hasPuny (witnessDnssl.body.drop 6) = false ∧
+    padClean ((witnessDnssl.body.drop 6).length + 1) (witnessDnssl.body.drop 6) = true ∧
+    dnsslUnmarshal witnessDnssl.bytes = .ok { lifetime := 60, names := [[97, 46, 98, 99], [100]], puny := false } := by
+  refine ⟨⟨by decide, by decide, by decide⟩, rfl, by decide, by decide, by decide⟩
+
+/-- the padding hypothesis of `dnssl_exact` cannot be dropped: with a non-zero byte after the zero
+    byte that ends the list, the code accepts the option (it stops at that zero byte) while the
+    reference ignores it -/
+theorem dnssl_padding_needed :
+    ¬ DnsslAgree ⟨31, 2, [0, 0, 0, 0, 0, 60, 1, 97, 0, 0, 1, 0, 0, 0]⟩ := by
+  intro h
+  exact absurd (h rfl) (by decide)
 
 end PV.Props.C14
